@@ -180,6 +180,7 @@ def body_collection(cname, check=True):
         return (False, "listed")
     # POST add-member to the new collection and to the calendar: the Location, dereferenced as sent, is the
     # member that was created (and nothing else was)
+    made = []
     for target in ("/user/calendars/" + cname + "/", "/user/calendars/cal/"):
         before = _member_names(app, target)
         r = mweb.call(app, "POST", target, body=b"ok", content_type="text/calendar", prefix=prefix, wsgi=wsgi)
@@ -194,6 +195,22 @@ def body_collection(cname, check=True):
             return (False, "post-location")
         if posixpath.dirname(pi) != target.rstrip("/"):
             return (False, "post-location")
+        made.append(target + created[0])
+    # Depth infinity (also the default when the header is absent): members two levels below the target are
+    # listed under hrefs that address THEM, each resource once
+    for hdrs in ([("Depth", "infinity")], []):
+        r = mweb.call(app, "PROPFIND", "/user/calendars/", headers=hdrs, xml=mweb.propfind_body("{DAV:}resourcetype"),
+                      prefix=prefix, wsgi=wsgi)
+        if r.kind != "multistatus":
+            return (False, "deep-listing")
+        got = []
+        for s in r.statuses:
+            pi = deref(Wd.create_href(s.href).text, prefix)
+            if pi is None:
+                return (False, "deep-listing")
+            got.append(pi.rstrip("/"))
+        if sorted(got) != sorted(["/user/calendars", "/user/calendars/cal", "/user/calendars/" + cname] + made):
+            return (False, "deep-listing")
     return (True, "listed")
 
 
